@@ -15,7 +15,7 @@ for m in re.finditer(r"^\| (C\d\d) \| (.*) \|$", design, re.M):
 CLAIMED = {
     "C19": {
         "text": "Seeded search over (pcap file x read-call history x read(2) chunk schedule x truncation/corruption point), each run one real p2sh process under the simulated OS; every returned packet (timestamps, lengths, bytes) is compared with a record-list/cursor model, written files are parsed byte for byte and re-read by a second process. Sampling, not exhaustive: right level because the space (contents x offsets x histories) is unbounded and the failure modes are alignment-dependent.",
-        "note": "Trusted: the Python pcap model and parser, the shim's chunking (only pipe-like descriptors and stdin are shortened), tmpfs. Bounds: <=50 records, <=70 kB per record, <=40 calls per handle.",
+        "note": "Trusted: the Python pcap model and parser, the shim's chunking (only pipe-like descriptors and stdin are shortened), tmpfs. Bounds: <=50 records (3-6% of the runs: 400-4000 tiny records), <=70 kB per record, <=30 calls per handle; a systematic block cuts one small file at every byte offset.",
         "ref": "DESIGN.md section 3 (C19)",
     },
     "C20": {
@@ -29,7 +29,7 @@ CLAIMED = {
         "ref": "DESIGN.md section 3 (C21)",
     },
     "C22": {
-        "text": "Every listed builtin x every applicable failing target (real ENOENT/EISDIR/EEXIST/ENOTDIR//dev/full/garbage pcap) and injected errno (EIO, ENOSPC incl. after a partial write, EPIPE, EACCES, EMFILE, EINTR) x call position is covered by construction in a systematic block, followed by seeded search over longer fault sequences; oracle: error object for the faulted operation, exact fault-free result for every other operation, program reaches DONE with exit 0, no panic, no runtime error.",
+        "text": "Every listed builtin x every applicable failing target (real ENOENT/EISDIR/EEXIST/ENOTDIR/ENAMETOOLONG/ELOOP, /dev/full, /proc/self/mem, garbage pcap) and injected errno (EIO, ENOSPC incl. after a partial write, EPIPE+SIGPIPE, EACCES, EMFILE, EINTR, EAGAIN, sources that stay broken, and a range of rarer errno values) x call position is covered by construction in a systematic block, followed by seeded search over longer fault sequences; oracle: error object for the faulted operation, exact fault-free result for every other operation, program reaches DONE with exit 0, no panic, no runtime error.",
         "note": "Trusted: attribution of faults to operations via the CLOCK delimiter, the shim. EINTR and plain short writes are legal-but-unobserved for p2sh (no signal handlers) and only used with a permissive result. Errors swallowed by std's flush-on-drop are outside the statement.",
         "ref": "DESIGN.md section 3 (C22)",
     },
